@@ -2061,7 +2061,7 @@ Lemma isclose_exact : kg_equal_ints_exact = true -> forall a b, is_num a = true 
   k_close a b = false -> isclose a b = num_eqb a b.
 Proof.
   intros Hf a b Na Nb Hk. unfold isclose in *.
-  assert (Hk' : negb (num_eqb a b) && isclose_gen kg_equal_ints_exact a b = false).
+  assert (Hk' : negb (num_eqb a b) && isclose_gen true a b = false).
   { destruct a; try discriminate Na; destruct b; try discriminate Nb; cbn [k_close is_num andb] in Hk; exact Hk. }
   rewrite Hf in *.
   destruct a as [x|x| | | | |]; try discriminate Na; destruct b as [y|y| | | | |]; try discriminate Nb;
@@ -2118,7 +2118,8 @@ Section KgEqual.
     - destruct (is_arr_true _ Ab) as [lb ->]. destruct a; try discriminate Aa; reflexivity.
     - destruct a as [x|x|x|x|x| |]; try discriminate Aa; destruct b as [y|y|y|y|y| |]; try discriminate Ab;
         try (cbn in Hm; discriminate Hm);
-        try (cbn [kg_equal_rep is_num andb]; rewrite (isclose_exact Hints) by (reflexivity || exact Hk); reflexivity).
+        try (cbn [kg_equal_rep is_num andb]; rewrite (isclose_exact Hints) by (reflexivity || exact Hk); reflexivity);
+        try reflexivity.
       + cbn [kg_equal_rep is_num andb sc_equal text_of s_same]. unfold zs_eqb. cbn [list_eqb]. rewrite andb_true_r.
         destruct (x =? y); reflexivity.
       + cbn [kg_equal_rep is_num andb sc_equal text_of s_same]. destruct (zs_eqb x y); reflexivity.
@@ -2420,4 +2421,50 @@ Proof.
     rewrite Aa, Ab in Z0. cbn [negb andb] in Z0.
     apply (vec_op_holds sc_idiv _ pgood_both_int_nz); try assumption; [|exact (res_normal_ok _ _ Hs Hrn)].
     rewrite all_pairs_atoms by assumption. unfold both_int_nz. rewrite Ia, Ib, Z0. reflexivity.
+Qed.
+
+(* ------------------------------------------------------------------ Find in a list *)
+Lemma positions_ok : forall (f : val -> result bool) (p : val -> bool) l i,
+  (forall x, In x l -> f x = Ok (p x)) -> positions i f l = Ok (s_positions (Z.of_nat i) p l).
+Proof.
+  intros f p. induction l as [|x l IH]; intros i H; [reflexivity|].
+  cbn [positions s_positions]. rewrite (H x (or_introl eq_refl)). cbn [bind].
+  rewrite (IH (S i)) by (intros y Hy; apply H; right; exact Hy). cbn [bind].
+  replace (Z.of_nat i + 1) with (Z.of_nat (S i)) by lia. destruct (p x); reflexivity.
+Qed.
+
+Local Open Scope string_scope.
+Local Open Scope Z_scope.
+
+Lemma find_list_holds : kg_equal_ints_exact = true -> kg_equal_no_shape_exit = true ->
+  forall l b, canonical (VL l) && canonical b = true -> dom_dyad "eval_dyad_find" (VL l) b = true ->
+  m_dyad "eval_dyad_find" (VL l) b = s_dyad "eval_dyad_find" (VL l) b.
+Proof.
+  intros Hi Hs l b Hc Hd. unfold m_dyad. rewrite Hc. cbn [negb].
+  change (m_find (VL l) b = Ok (VL (s_positions 0 (fun x => s_same x b) l))).
+  change (dom_dyad "eval_dyad_find" (VL l) b) with
+    (negb (match b with VU => true | _ => false end) && forallb (fun x => match_kinds_ok x b && negb (k_close x b)) l) in Hd.
+  apply andb_true_iff in Hd. destruct Hd as [Hu Hall]. rewrite forallb_forall in Hall.
+  assert (Keq : forall x, In x l -> kg_equal (fuel2 x b) x b = Ok (s_same x b)).
+  { intros x Hx. specialize (Hall x Hx). apply andb_true_iff in Hall. destruct Hall as [Hm Hk]. apply negb_true_iff in Hk.
+    unfold kg_equal. rewrite Hs. cbn [negb].
+    apply (kg_equal_rep_spec Hi); try assumption; try apply canon_rep_valid. apply fuel2_enough. }
+  assert (Scan : okl (positions 0 (fun x => kg_equal (fuel2 x b) x b) l) = Ok (VL (s_positions 0 (fun x => s_same x b) l))).
+  { rewrite (positions_ok _ (fun x => s_same x b) l 0 Keq). reflexivity. }
+  unfold m_find.
+  destruct b as [z|r|c|s|s|lb|]; try discriminate Hu; try exact Scan;
+    (destruct (is_strlike _ || is_obj (VL l) || (1 <? npdepth (VL l))%nat) eqn:E; [exact Scan|]).
+  - (* integer needle in a numeric vector *)
+    apply orb_false_iff in E. destruct E as [E Hn]. apply orb_false_iff in E. destruct E as [_ Ho].
+    destruct (not_obj_list _ Ho) as [sh R]. destruct (rshape_list _ _ R) as [s0 [Es F]]. subst sh.
+    assert (s0 = []) by (apply Nat.ltb_ge in Hn; rewrite (npdepth_rect _ _ R) in Hn; destruct s0; [reflexivity|cbn in Hn; lia]). subst s0.
+    rewrite (positions_ok _ (fun x => s_same x (VI z)) l 0); [reflexivity|].
+    intros x Hx. rewrite Forall_forall in F. pose proof (rshape_nil_atom _ (F x Hx)) as Nx.
+    destruct x; try discriminate Nx; cbn [sc_equal s_same num_eqb b2v]; match goal with |- context [if ?c then _ else _] => destruct c end; reflexivity.
+  - apply orb_false_iff in E. destruct E as [E Hn]. apply orb_false_iff in E. destruct E as [_ Ho].
+    destruct (not_obj_list _ Ho) as [sh R]. destruct (rshape_list _ _ R) as [s0 [Es F]]. subst sh.
+    assert (s0 = []) by (apply Nat.ltb_ge in Hn; rewrite (npdepth_rect _ _ R) in Hn; destruct s0; [reflexivity|cbn in Hn; lia]). subst s0.
+    rewrite (positions_ok _ (fun x => s_same x (VR r)) l 0); [reflexivity|].
+    intros x Hx. rewrite Forall_forall in F. pose proof (rshape_nil_atom _ (F x Hx)) as Nx.
+    destruct x; try discriminate Nx; cbn [sc_equal s_same num_eqb b2v]; match goal with |- context [if ?c then _ else _] => destruct c end; reflexivity.
 Qed.
